@@ -3,6 +3,12 @@ import PdtVerif.Lemmas.SeqScoreGreedy
 import PdtVerif.Lemmas.SeqScoreWalk
 import PdtVerif.Lemmas.SeqScoreSupport
 import PdtVerif.Lemmas.SeqScorePacked
+import PdtVerif.Lemmas.SeqScorePackedLens
+import PdtVerif.Lemmas.SeqScoreFill
+import PdtVerif.Lemmas.SeqScoreEnum
+import PdtVerif.Lemmas.SeqScoreSample
+import PdtVerif.Lemmas.SeqScoreCheck
+import PdtVerif.Lemmas.SeqScoreCheckMem
 /-!
 # C07 — sequence scores, random walks and greedy CTC decoding match their definitions
 
@@ -157,6 +163,112 @@ theorem C07_packed (V N T : Nat) (lsm : Nat → Nat → Rat) (bs : List Nat)
 example : (decide ((2 : Nat) = 0) || (lensOfBatchSizes 2 [2, 1]).any (· == 0) ||
       decide (2 < (lensOfBatchSizes 2 [2, 1]).headD 0)) = false ∧
     batchSizesOfLens (lensOfBatchSizes 2 [2, 1]) = [2, 1] := by decide
+
+/-- Length of the `i`-th sequence of the packed batch: the number of steps whose batch size
+exceeds `i` (`lens = (arange(N).unsqueeze(1) < batch_sizes).sum(1)`). -/
+def packedLen (bs : List Nat) (i : Nat) : Nat := (bs.filter (fun b => decide (i < b))).length
+
+/-- **C07_packed_valid** — `C07_packed` without the `hbs` and guard hypotheses, for every valid
+`PackedSequence`: batch sizes non-increasing (`hmono`), positive (`hpos`), starting at the number
+of sequences `N` (`hN`), and a `hyp` with at least as many steps as the longest sequence (`hT`).
+The result for the `i`-th sorted sequence is the spec's score (no `eos`) of its first
+`packedLen bs i` tokens against the padded rows — "`i < batch_sizes[t]`" is "`t <` its length". -/
+theorem C07_packed_valid (V N T : Nat) (lsm : Nat → Nat → Rat) (bs : List Nat)
+    (sidx uidx : Option (List Nat)) (hyp : Nat → Nat → Int) (x : Nat → Nat → Nat → Rat)
+    (hmono : bs.Pairwise (fun a b => b ≤ a)) (hpos : ∀ b ∈ bs, 0 < b) (hN : bs.head? = some N)
+    (hT : bs.length ≤ T)
+    (hlayout : ∀ t i, t < bs.length → i < bs.getD t 0 →
+      lsm (offs bs t + i) = x (sortIdx sidx i) t) :
+    seqLogProbsPacked V N T lsm bs sidx uidx hyp =
+      some (
+        let sums := (List.range N).map (fun i =>
+          Spec.seqScore V none (x (sortIdx sidx i))
+            ((List.range (packedLen bs i)).map (hyp (sortIdx sidx i))))
+        match uidx with
+        | none => sums
+        | some u => u.map (fun j => sums.getD j 0)) := by
+  rw [C07_packed V N T lsm bs sidx uidx hyp x (packed_guard N T bs hmono hpos hN hT)
+    (batchSizes_roundtrip N bs hmono hpos hN) hlayout]
+  have hhead : bs.headD 0 = N := by
+    cases bs with
+    | nil => simp at hN
+    | cons b r => simpa using hN
+  have hsums : (List.range (bs.headD 0)).map (fun i =>
+        ((bs.zipIdx).map (fun bt =>
+          if i < bt.1 then paddedCell V (x (sortIdx sidx i) bt.2) (hyp (sortIdx sidx i) bt.2)
+          else 0)).sum)
+      = (List.range N).map (fun i =>
+          Spec.seqScore V none (x (sortIdx sidx i))
+            ((List.range (packedLen bs i)).map (hyp (sortIdx sidx i)))) := by
+    rw [hhead]
+    apply List.map_congr_left
+    intro i _
+    rw [sum_steps_eq bs hmono i
+      (fun t => paddedCell V (x (sortIdx sidx i) t) (hyp (sortIdx sidx i) t))]
+    exact padded_cells_eq_spec V (packedLen bs i) (x (sortIdx sidx i)) (hyp (sortIdx sidx i))
+  simp only [hsums]
+
+/-- `sorted_indices` / `unsorted_indices` of a `PackedSequence`: both absent, or `u` sends every
+sequence to its position in the sorted batch and `s` sends it back. -/
+def InversePerm (N : Nat) (sidx uidx : Option (List Nat)) : Prop :=
+  match sidx, uidx with
+  | none, none => True
+  | some s, some u => u.length = N ∧ ∀ j, j < N → u.getD j 0 < N ∧ s.getD (u.getD j 0) 0 = j
+  | _, _ => False
+
+/-- Position of sequence `j` (caller's order) in the sorted batch. -/
+def sortedPos (uidx : Option (List Nat)) (j : Nat) : Nat :=
+  match uidx with
+  | none => j
+  | some u => u.getD j 0
+
+/-- **C07_packed_seq** (packed = the definition, per sequence of the caller): for every valid
+`PackedSequence` holding the padded rows `x` (caller's order), with `unsorted_indices` the inverse
+of `sorted_indices`, entry `j` of the result is the sequence log-probability (spec, no `eos`) of
+the first `len j` tokens of `hyp[j]` against `x[j]`, where `len j` is the packed length of
+sequence `j`. -/
+theorem C07_packed_seq (V N T : Nat) (lsm : Nat → Nat → Rat) (bs : List Nat)
+    (sidx uidx : Option (List Nat)) (hyp : Nat → Nat → Int) (x : Nat → Nat → Nat → Rat)
+    (hmono : bs.Pairwise (fun a b => b ≤ a)) (hpos : ∀ b ∈ bs, 0 < b) (hN : bs.head? = some N)
+    (hT : bs.length ≤ T) (hperm : InversePerm N sidx uidx)
+    (hlayout : ∀ t i, t < bs.length → i < bs.getD t 0 →
+      lsm (offs bs t + i) = x (sortIdx sidx i) t) :
+    seqLogProbsPacked V N T lsm bs sidx uidx hyp =
+      some ((List.range N).map (fun j =>
+        Spec.seqScore V none (x j)
+          ((List.range (packedLen bs (sortedPos uidx j))).map (hyp j)))) := by
+  rw [C07_packed_valid V N T lsm bs sidx uidx hyp x hmono hpos hN hT hlayout]
+  cases sidx with
+  | none =>
+    cases uidx with
+    | none => simp [sortIdx, sortedPos]
+    | some u => simp [InversePerm] at hperm
+  | some s =>
+    cases uidx with
+    | none => simp [InversePerm] at hperm
+    | some u =>
+      obtain ⟨hlen, hinv⟩ := hperm
+      simp only [sortedPos]
+      congr 1
+      rw [range_form u N 0 hlen, List.map_map]
+      apply List.map_congr_left
+      intro j hj
+      have hjN : j < N := List.mem_range.1 hj
+      obtain ⟨h1, h2⟩ := hinv j hjN
+      simp only [Function.comp, ← range_form u N 0 hlen]
+      rw [List.getD_eq_getElem?_getD, List.getElem?_map, List.getElem?_range h1]
+      simp only [Option.map_some, Option.getD_some, sortIdx, h2]
+
+/-- The hypotheses of `C07_packed_seq` hold for lengths `[1, 2]` packed unsorted
+(`batch_sizes = [2, 1]`, `sorted_indices = unsorted_indices = [1, 0]`). -/
+example : [2, 1].Pairwise (fun a b => b ≤ a) ∧ (∀ b ∈ [2, 1], 0 < b) ∧
+    [2, 1].head? = some 2 ∧ InversePerm 2 (some [1, 0]) (some [1, 0]) ∧
+    packedLen [2, 1] (sortedPos (some [1, 0]) 0) = 1 ∧
+    packedLen [2, 1] (sortedPos (some [1, 0]) 1) = 2 := by
+  refine ⟨by decide, by decide, rfl, ⟨rfl, ?_⟩, by decide, by decide⟩
+  intro j hj
+  have : j = 0 ∨ j = 1 := by omega
+  rcases this with rfl | rfl <;> decide
 
 /-! ## greedy CTC decoding -/
 
@@ -363,11 +475,123 @@ example : ((List.range 2).map ((fun (_ : List Nat) v => if v = 0 then (1 / 4 : R
   decide +kernel
 example : Spec.support 2 (some 0) 2 = [[0, 0], [1, 0], [1, 1]] := by decide
 
+/-- **C07_fill_after_eos**: `_string.py::fill_after_eos` (`(tok == eos).cumsum.clamp_max(1).cumsum > 1`)
+keeps the tokens up to and including the first `eos` and writes `fill` into every later cell —
+for any token type, any `eos`, any `fill`. -/
+theorem C07_fill_after_eos {α} [BEq α] [LawfulBEq α] (tok : List α) (eos fill : α) :
+    fillAfterEos tok eos fill =
+      tok.take (tok.idxOf eos + 1) ++ List.replicate (tok.length - (tok.idxOf eos + 1)) fill :=
+  fillAfterEos_eq tok eos fill
+
+/-- … in particular `fill_after_eos(s, eos, fill=eos)` is the spec `fillSpec`. -/
+theorem C07_fill_after_eos_spec (s : List Nat) (e : Nat) :
+    fillAfterEos s e e = Spec.fillSpec e s := fillAfterEos_eq_spec s e
+
+example : fillAfterEos [2, 0, 1, 0, 2] 0 7 = [2, 0, 7, 7, 7] := by decide
+
+/-- **C07_enumerate_support**: `enumerate_support()` (`enumerate_vocab_sequences` →
+`fill_after_eos` → `torch.unique(dim=0)`) lists exactly the rows of `Spec.support`, each once;
+with `eos` set it is the same list in the same (lexicographic) order. -/
+theorem C07_enumerate_support (V T : Nat) (eos : Option Nat) :
+    (∀ r, r ∈ enumerateSupport V T eos ↔ r ∈ Spec.support V eos T) ∧
+    (enumerateSupport V T eos).Nodup ∧
+    (enumerateSupport V T eos).Perm (Spec.support V eos T) ∧
+    (∀ e, eos = some e → enumerateSupport V T eos = Spec.support V eos T) := by
+  refine ⟨mem_enumerateSupport V T eos, ?_, enumerateSupport_perm V T eos, ?_⟩
+  · exact (enumerateSupport_perm V T eos).symm.nodup (sorted_support V eos T).nodup
+  · intro e he
+    subst he
+    exact enumerateSupport_eq V T e
+
+example : enumerateSupport 2 2 (some 0) = [[0, 0], [1, 0], [1, 1]] := by decide
+example : enumerateSupport 2 2 none = [[0, 0], [1, 0], [0, 1], [1, 1]] := by decide
+
+/-- **C07_enumerated_support_sums_to_one**: the probabilities of the rows the implementation
+enumerates (model of `enumerate_support()`) sum to one, for any language model with normalised
+conditional probabilities (over `Rat`; `exp`/`log` not modelled). -/
+theorem C07_enumerated_support_sums_to_one (V : Nat) (eos : Option Nat) (p : List Nat → Nat → Rat)
+    (hnorm : ∀ h, ((List.range V).map (p h)).sum = 1) (T : Nat) :
+    ((enumerateSupport V T eos).map (Spec.seqProb eos p [])).sum = 1 := by
+  rw [rat_sum_perm ((enumerateSupport_perm V T eos).map _)]
+  exact support_mass V eos p hnorm T []
+
+/-- **C07_sample_in_support** (no batch shape): every row `sample()` returns — a column of the
+single walk's `y` — is, once padded with `eos` to the step limit, a row of `enumerate_support()`.
+Same draw hypotheses as `C07_walk`; `henough`: without `eos` the replay supplies `max_iters` draw
+rows. -/
+theorem C07_sample_in_support (lm : LM) (V : Nat) (eos : Option Nat) (M T : Nat)
+    (draws : List (List Nat)) (heos : ∀ e, eos = some e → e < V)
+    (hrows : Rows M V (draws.take T)) (hf : Forced eos M (draws.take T))
+    (henough : eos = none → T ≤ draws.length)
+    (r : List Nat) (hr : r ∈ sampleFlat lm V eos M T draws) :
+    r.length ≤ T ∧ padTo T (eos.getD 0) r ∈ enumerateSupport V T eos := by
+  simp only [sampleFlat, List.mem_map, List.mem_range] at hr
+  obtain ⟨n, hn, rfl⟩ := hr
+  exact ⟨(walk_columns lm V eos M T draws heos hrows hf henough n hn).1,
+    mem_enumerate_of_column lm V eos M T draws heos hrows hf henough n hn⟩
+
+/-- **C07_sample_batched_in_support** (batch shape `N`, one walk per draw): every row of the
+stacked and `eos`-padded sample tensor is, once padded with `eos` to the step limit, a row of
+`enumerate_support()`. -/
+theorem C07_sample_batched_in_support (lm : LM) (V : Nat) (eos : Option Nat) (N T : Nat)
+    (draws : List (List (List Nat))) (heos : ∀ e, eos = some e → e < V)
+    (h : ∀ d ∈ draws, Rows N V (d.take T) ∧ Forced eos N (d.take T) ∧
+      (eos = none → T ≤ d.length))
+    (r : List Nat) (hr : r ∈ sampleBatched lm V eos N T draws) :
+    r.length ≤ T ∧ padTo T (eos.getD 0) r ∈ enumerateSupport V T eos := by
+  simp only [sampleBatched, List.mem_flatMap, List.mem_map, List.mem_range] at hr
+  obtain ⟨y, ⟨d, hd, rfl⟩, n, hn, rfl⟩ := hr
+  obtain ⟨hR, hF, hE⟩ := h d hd
+  have hcol := walk_columns lm V eos N T d heos hR hF hE n hn
+  have hS : (List.map List.length (List.map (fun d => (walk lm V eos N T d).y) draws)).foldl max 0 ≤ T := by
+    apply foldl_max_le _ 0 T (Nat.zero_le _)
+    intro x hx
+    simp only [List.mem_map] at hx
+    obtain ⟨_, ⟨d', hd', rfl⟩, rfl⟩ := hx
+    obtain ⟨hR', hF', hE'⟩ := h d' hd'
+    have := (walk_columns lm V eos N T d' heos hR' hF' hE' n hn).1
+    rwa [column_length] at this
+  have hle : (column (walk lm V eos N T d).y n).length ≤
+      (List.map List.length (List.map (fun d => (walk lm V eos N T d).y) draws)).foldl max 0 := by
+    rw [column_length]
+    apply le_foldl_max
+    simp only [List.mem_map]
+    exact ⟨_, ⟨d, hd, rfl⟩, rfl⟩
+  refine ⟨?_, ?_⟩
+  · simp only [padTo, List.length_append, List.length_replicate]; omega
+  · rw [padTo_padTo _ T _ _ hle hS]
+    exact mem_enumerate_of_column lm V eos N T d heos hR hF hE n hn
+
+example : sampleBatched (fun _ _ _ => -1) 3 (some 2) 1 3 [[[2]], [[0], [1], [2]]]
+    = [[2, 2, 2], [0, 1, 2]] := by decide +kernel
+
 /-- `_validate_sample` of the repaired code accepts exactly what `TokenSequenceConstraint.check`
 accepts: the event dimension is not compared with `max_iters` separately. -/
 theorem C07_validate (V : Nat) (eos : Option Int) (maxIters : Option Nat) (value : List Int) :
     validateSample false V eos maxIters value = supportCheck V eos maxIters value := by
   simp [validateSample, eventDimOk]
+
+/-- **C07_support_check**: `TokenSequenceConstraint.check` (with `max_iters = T`) accepts a value
+exactly when it is complete — `T` tokens, or at most `T` tokens one of which is `eos` — and every
+token up to and including its first `eos` is in the vocabulary; whatever follows the first `eos`
+is ignored. Together with `C07_validate` this is what `log_prob` accepts. -/
+theorem C07_support_check (V : Nat) (eos : Option Int) (T : Nat) (value : List Int) :
+    supportCheck V eos (some T) value = true ↔
+      Complete eos T value ∧ ∀ x ∈ Spec.cutAtEos eos value, 0 ≤ x ∧ x < (V : Int) :=
+  supportCheck_iff V eos T value
+
+/-- **C07_support_check_mem** (check ⇔ membership): on a row of natural-number tokens the
+constraint accepts exactly the complete rows which, cut at their first `eos` and padded with
+`eos` to the step limit, are rows of `Spec.support` (= of `enumerate_support()`,
+`C07_enumerate_support`). -/
+theorem C07_support_check_mem (V : Nat) (eos : Option Nat) (T : Nat) (r : List Nat) :
+    supportCheck V (eos.map Int.ofNat) (some T) (r.map Int.ofNat) = true ↔
+      CompleteNat eos T r ∧ padTo T (eos.getD 0) (fillOpt eos r) ∈ Spec.support V eos T :=
+  check_iff_mem V eos T r
+
+example : supportCheck 2 (some 0) (some 3) [1, 0, 7] = true := by decide
+example : supportCheck 2 (some 0) (some 3) [1, 7, 0] = false := by decide
+example : supportCheck 2 (some 0) (some 3) [1, 1] = false := by decide
 
 /-- The tree as pinned rejects a sample that the support check accepts: `[1, eos]` with
 `max_iters = 3` (every path hit `eos` early, so the sample has 2 < 3 columns). Replayed on the
